@@ -95,6 +95,22 @@ class VClock(object):
     def sleep(self, dt):
         self.advance(dt)
 
+    # whatever else of the time module a change may start to use: all read the same virtual clock
+    def monotonic(self):
+        return self.now - self.start + 1000.0
+
+    perf_counter = monotonic
+
+    def time_ns(self):
+        return int(self.now * 1e9)
+
+    def monotonic_ns(self):
+        return int(self.monotonic() * 1e9)
+
+    def __getattr__(self, name):
+        import time as _t
+        return getattr(_t, name)       # strftime, gmtime, ...: the real ones
+
 
 # ------------------------------------------------------------------ file system
 class SimFS(object):
@@ -129,9 +145,10 @@ class RawSyncService(object):
     """Answers the first request of a sync: stream with the given raw bytes (any sequence of records, valid at that point or not)
     and then says nothing more; a CLSE from the host is answered as usual."""
 
-    def __init__(self, reply, cuts=None):
+    def __init__(self, reply, cuts=None, then_close=False):
         self.reply = bytes(reply)
         self.cuts = cuts
+        self.then_close = then_close      # after the reply the service dies: adbd closes the stream
         self.answered = False
         self.records = []
         self.out = []
@@ -145,6 +162,8 @@ class RawSyncService(object):
         self.answered = True
         b = self.reply
         if not b:
+            if self.then_close:
+                st.data.append(('CLSE', b'', st.nwr))
             return
         pieces = [b]
         if self.cuts:
@@ -155,6 +174,8 @@ class RawSyncService(object):
             pieces.append(b[last:])
         for p_ in pieces:
             st.data.append(('WRTE', p_, st.nwr))
+        if self.then_close:
+            st.data.append(('CLSE', b'', st.nwr))
 
 
 class SyncFailPlan(object):
